@@ -43,11 +43,15 @@ func handle[C any](r *rep.Run, space string, check Check[C], c C, fs []rep.Findi
 	if len(fs) == 0 {
 		return
 	}
-	// determinism guard: the same case must fail the same way twice more
+	// determinism guard: the same case must fail again, twice. A re-run that passes means
+	// the failure cannot be trusted (harness error, nothing reported); a re-run that fails with
+	// other keys (a library whose behaviour depends on what other workers do at the same time,
+	// e.g. a shared buffer pool) still confirms that the case fails: the first run's findings
+	// are reported.
 	for i := 0; i < 2; i++ {
 		again := safe(check, c)
-		if !sameKeys(fs, again) {
-			r.HarnessError(fmt.Sprintf("nondeterministic oracle in %s: %v vs %v (case %+v)", space, keys(fs), keys(again), c))
+		if len(again) == 0 {
+			r.HarnessError(fmt.Sprintf("nondeterministic oracle in %s: %v, then no finding on re-execution (case %+v)", space, keys(fs), c))
 			return
 		}
 	}
@@ -64,17 +68,6 @@ func keys(fs []rep.Finding) []string {
 	return k
 }
 
-func sameKeys(a, b []rep.Finding) bool {
-	if len(a) != len(b) {
-		return false
-	}
-	for i := range a {
-		if a[i].Key != b[i].Key {
-			return false
-		}
-	}
-	return true
-}
 
 // Indexed explores the space {mk(0),…,mk(n-1)} completely.
 func Indexed[C any](r *rep.Run, space string, n uint64, mk func(i uint64) C, check Check[C]) {
